@@ -8,17 +8,22 @@ import "fmt"
 //
 // n      number of vertices (ids 0..n-1, source 0)
 // mode   0: all n*n edges (self-loops included) have symbolic presence
-//        1: complete graph without self-loops
-//        2: the n*(n-1) non-loop edges have symbolic presence
+//
+//	1: complete graph without self-loops
+//	2: the n*(n-1) non-loop edges have symbolic presence
+//
 // wset   0: weights symbolic in [0, vnC18W]   (N*W < 2^31-1: distances representable)
-//        1: weights drawn symbolically from the resolver's set {-1,1,5,20}; only the
-//           structural clauses (acyclic predecessor chains made of real edges) are asserted
-//        2: weights symbolic in [0, 2^31-1-? ] near the int32 boundary, at most one edge on a path heavy
+//
+//	1: weights drawn symbolically from the resolver's set {-1,1,5,20}; only the
+//	   structural clauses (acyclic predecessor chains made of real edges) are asserted
+//	2: weights symbolic in [0, 2^31-1-? ] near the int32 boundary, at most one edge on a path heavy
+//
 // sched  0: insertion order everywhere
-//        1: perm(3) at the queue-filling and relaxation ranges, flip elsewhere
-//        2: rot x flip per site
-//        3: one independent flip per site
-//        4: seeded random permutation per range instance
+//
+//	1: perm(3) at the queue-filling and relaxation ranges, flip elsewhere
+//	2: rot x flip per site
+//	3: one independent flip per site
+//	4: seeded random permutation per range instance
 const vnC18W = 1000000
 
 func HarnessC18(n, mode, wset, sched int) { harnessC18(n, mode, wset, sched, 0) }
@@ -244,3 +249,6 @@ func c18Oracle(g *Graph, n, wset int, presentP *[8][8]bool, wP *[8][8]int, tag s
 	}
 	vnCover("C18.oracle-complete")
 }
+
+// hQuietLogs: see the argmapper harness; the graph package does not log.
+func hQuietLogs() {}
